@@ -45,12 +45,14 @@
 /* g_sys is one assigns target: the fields these loops never write keep their values */
 #define VP_SYS_REST_SAME (VP_D(g_start_calls) == 0 && VP_D(g_arm_calls) == 0 && VP_D(g_pfd_close_calls) == 0 && VP_D(g_pfd_stop_calls) == 0 && VP_D(g_dialcb_calls) == 0 && \
 	g_start_aio == LE(g_start_aio) && g_start_fn == LE(g_start_fn) && g_start_arg == LE(g_start_arg) && g_arm_events == LE(g_arm_events) && g_arm_pfd == LE(g_arm_pfd))
+/* direction of the transfer loop that serves queue q */
+#define VP_KIND_OF(q) (&(q) == &g_wq ? VP_SYS_WRITE : VP_SYS_READ)
 #define VP_XFER_INV(q)                                                                        \
 	(VP_SYS_REST_SAME && (q).s.n <= LE((q).s.n) && VP_D(g_pops) == LE((q).s.n) - (q).s.n && VP_D(g_fin_calls) == VP_D(g_pops) && \
 	    VP_D(g_sys.n_ok) == VP_D(g_pops) && VP_D(g_sys.n_again) == 0 && VP_D(g_sys.n_err) == 0 && \
 	    VP_D(g_sys.calls) == VP_D(g_sys.n_ok) + VP_D(g_sys.n_intr) &&                            \
 	    (VP_D(g_pops) == 0 ? ((q).s.orig == LE((q).s.orig)) : !(q).s.orig) &&                        \
-	    (VP_D(g_fin_calls) > 0 ==> VP_FIN_IS_OK_CALL) &&                                       \
+	    (VP_D(g_fin_calls) > 0 ==> (VP_FIN_IS_OK_CALL && g_sys.ok_kind == VP_KIND_OF(q))) &&   \
 	    ((VP_D(g_pops) == 1 && LE((q).s.orig) && LE((q).s.n) > 0) ==> (g_pop_last == (q).first && g_sys.ok_head == (q).first && g_sys.ok_count0 == vp_c0)) &&  \
 	    ((q).s.n == 0 || ((q).s.orig ? (VP_AIO_WF((q).first) && (q).first->a_count == vp_c0) : VP_AIO_WF((q).later))))
 /* error / close loops: every removal is followed by the completion of that aio with the code */
